@@ -2,7 +2,7 @@
 from fractions import Fraction
 
 from .. import terms as T
-from ..ctx import make_state, make_rbm, tens, call, single, dimval, state_networks
+from ..ctx import make_state, make_rbm, tens, call, single, dimval, state_networks, returning, path_tag
 from ..ctx import run as paths_of
 from ..interp import RaiseEx, explore
 from ..values import VConst, VNum, VTens, VObj, VList, VTuple, VDict, VUnknown, VFunc, VRange, VIter, VExt, VClass, VBound, VSlice, Unsupported, num_term, const_of
